@@ -82,12 +82,6 @@ func run(r *core.Run) {
 			r.Sample(map[string]any{"tree": t.Case.String(), "values": st.Values - before.Values})
 		}
 	}
-	if only == "" || only == "dsl" {
-		maxOps := core.Pick(r, 3, 4)
-		if w.WalkDSL(maxOps, 2, judge) {
-			r.Section("dsl")
-		}
-	}
 	if only == "" || only == "cli" {
 		if runCLI(r, 2, core.Pick(r, 1, 2), core.Pick(r, 1, 2)) {
 			r.Section("cli-dsl")
@@ -103,6 +97,13 @@ func run(r *core.Run) {
 		}
 		if w.WalkCorpus(o, TopStarts, cli) {
 			r.Section("corpus")
+		}
+	}
+	// the large enumeration last (simplest programs first): a deadline cuts only its tail
+	if only == "" || only == "dsl" {
+		maxOps := core.Pick(r, 3, 4)
+		if w.WalkDSL(maxOps, 2, judge) {
+			r.Section("dsl")
 		}
 	}
 	r.Eval(evals)
